@@ -130,6 +130,56 @@ theorem sub_bounded_finite {x y : F64} (hx : x.isFinite = true) (hy : y.isFinite
 theorem etaF_le_uF : etaF ≤ uF := by decide +kernel
 theorem uF_le_12 : uF ≤ 1 / 12 := by decide +kernel
 
+/-- The magnitude classes for which the `M2` analysis goes through: `0 ≤ M ≤ 2^1021`, `η ≤ M·u` (`M ≥ 2^-1022`), and
+`K·8·M²` is a float for every count `K ≤ 2^53` (a power of two `M` with `2^-538 ≤ M ≤ 2^480`). -/
+structure MagClass (M : Rat) : Prop where
+  nonneg : 0 ≤ M
+  le : M ≤ bigB
+  eta : etaF ≤ M * uF
+  rep : ∀ K : Nat, K ≤ P53 → Rep ((K : Rat) * (8 * M * M))
+
+theorem magClass_pow2 (e : Nat) (he : e ≤ 480) : MagClass ((2 ^ e : Nat) : Rat) := by
+  have hM1 : (1 : Rat) ≤ ((2 ^ e : Nat) : Rat) := by
+    have : 1 ≤ 2 ^ e := Nat.pow_pos (by decide)
+    have := Rat.natCast_le_natCast.mpr this
+    exact this
+  refine ⟨by grind, ?_, ?_, fun K hK => rep_count_8MM K e hK he⟩
+  · rw [bigB_eq]
+    exact Rat.natCast_le_natCast.mpr (Nat.pow_le_pow_right (by decide) (by omega))
+  · have := Rat.mul_le_mul_of_nonneg_right hM1 (Rat.le_of_lt uF_pos)
+    have := etaF_le_uF
+    grind
+
+theorem etaF_eq_scaled : etaF = ((2 ^ 52 : Nat) : Rat) / two1074 * uF := by decide +kernel
+
+/-- Scaled powers of two `M = 2^j / 2^1074 = 2^(j−1074)`, `536 ≤ j ≤ 1554`: `2^-538 ≤ M ≤ 2^480`. -/
+theorem magClass_scaled (j : Nat) (h1 : 536 ≤ j) (h2 : j ≤ 1554) : MagClass (((2 ^ j : Nat) : Rat) / two1074) := by
+  have ht := two1074_pos
+  have hp : (0 : Rat) < ((2 ^ j : Nat) : Rat) := pow2_cast_pos _
+  refine ⟨Rat.le_of_lt (rat_div_pos hp ht), ?_, ?_, ?_⟩
+  · unfold bigB
+    exact rat_div_le_div_right ht (Rat.natCast_le_natCast.mpr (Nat.pow_le_pow_right (by decide) (by omega)))
+  · rw [etaF_eq_scaled]
+    apply Rat.mul_le_mul_of_nonneg_right _ (Rat.le_of_lt uF_pos)
+    exact rat_div_le_div_right ht (Rat.natCast_le_natCast.mpr (Nat.pow_le_pow_right (by decide) (by omega)))
+  · intro K hK
+    have h := rep_count_pow K (j + j + 3 - 1074) hK (by omega)
+    have e1 : (2 : Nat) ^ (j + j + 3 - 1074) * 2 ^ 1074 = 2 ^ j * 2 ^ j * 8 := by
+      rw [← Nat.pow_add, show j + j + 3 - 1074 + 1074 = j + j + 3 by omega, Nat.pow_add, Nat.pow_add]
+    have e2 : ((K * 2 ^ (j + j + 3 - 1074) : Nat) : Rat) / two1074 =
+        (K : Rat) * (8 * (((2 ^ j : Nat) : Rat) / two1074) * (((2 ^ j : Nat) : Rat) / two1074)) := by
+      have c : ((2 ^ (j + j + 3 - 1074) : Nat) : Rat) * two1074 = ((2 ^ j : Nat) : Rat) * ((2 ^ j : Nat) : Rat) * 8 := by
+        rw [two1074_eq, ← Rat.natCast_mul, e1, Rat.natCast_mul, Rat.natCast_mul]; rfl
+      have hinv : two1074 * two1074⁻¹ = 1 := Rat.mul_inv_cancel _ (Rat.ne_of_gt ht)
+      rw [Rat.natCast_mul, Rat.div_def, Rat.div_def]
+      have c2 : ((2 ^ (j + j + 3 - 1074) : Nat) : Rat) =
+          ((2 ^ j : Nat) : Rat) * ((2 ^ j : Nat) : Rat) * 8 * two1074⁻¹ := by
+        have h3 : ((2 ^ (j + j + 3 - 1074) : Nat) : Rat) * two1074 * two1074⁻¹ =
+            ((2 ^ j : Nat) : Rat) * ((2 ^ j : Nat) : Rat) * 8 * two1074⁻¹ := by rw [c]
+        grind
+      rw [c2]; grind
+    rwa [e2] at h
+
 /-! ### the run invariant -/
 
 /-- The error bound of the mean in the form used here: `(3k+17)/2 · a` with `a = M·u ≥ η`. -/
@@ -175,26 +225,15 @@ structure VarAcc (M : Rat) (sf : NumF) (sq : Numerical Rat) : Prop where
     (15 * ((sf.samples : Rat) * ((sf.samples : Rat) + 1)) / 2 + 55 * (sf.samples : Rat)) * (M * (M * uF)) +
     2 * (sf.samples : Rat) * etaF
 
-theorem varAcc_step (keep : Bool) (e : Nat) (he : e ≤ 480) (sf : NumF) (sq : Numerical Rat) (x : F64)
-    (hk : 1 ≤ sf.samples) (hn : sf.samples + 1 ≤ P53) (h : VarAcc ((2 ^ e : Nat) : Rat) sf sq)
-    (xf : x.isFinite = true) (xl : -((2 ^ e : Nat) : Rat) ≤ x.toRat) (xh : x.toRat ≤ ((2 ^ e : Nat) : Rat)) :
-    VarAcc ((2 ^ e : Nat) : Rat) (NumF.samplef keep sf x) (Numerical.samplef ratOps false sq x.toRat) := by
-  generalize hMdef : ((2 ^ e : Nat) : Rat) = M at *
-  have hM1 : 1 ≤ M := by
-    rw [← hMdef]
-    have : 1 ≤ 2 ^ e := Nat.pow_pos (by decide)
-    have := Rat.natCast_le_natCast.mpr this
-    exact this
-  have hMB : M ≤ bigB := by
-    rw [← hMdef, bigB_eq]
-    exact Rat.natCast_le_natCast.mpr (Nat.pow_le_pow_right (by decide) (by omega))
-  have hM0 : 0 ≤ M := by grind
+theorem varAcc_step (keep : Bool) (M : Rat) (hcls : MagClass M) (sf : NumF) (sq : Numerical Rat) (x : F64)
+    (hk : 1 ≤ sf.samples) (hn : sf.samples + 1 ≤ P53) (h : VarAcc M sf sq)
+    (xf : x.isFinite = true) (xl : -M ≤ x.toRat) (xh : x.toRat ≤ M) :
+    VarAcc M (NumF.samplef keep sf x) (Numerical.samplef ratOps false sq x.toRat) := by
+  have hM0 := hcls.nonneg
+  have hMB := hcls.le
+  have hηa := hcls.eta
   have hu := uF_pos
   have he0 := etaF_pos
-  have hηa : etaF ≤ M * uF := by
-    have := Rat.mul_le_mul_of_nonneg_right hM1 (Rat.le_of_lt hu)
-    have := etaF_le_uF
-    grind
   have hk1 : (1 : Rat) ≤ (sf.samples : Rat) := by
     have := Rat.natCast_le_natCast.mpr hk
     exact this
@@ -262,8 +301,7 @@ theorem varAcc_step (keep : Bool) (e : Nat) (he : e ≤ 480) (sf : NumF) (sq : N
   -- the product
   obtain ⟨q1, q2⟩ := mul_abs_le bd.1 bd.2 bd2.1 bd2.2
   have hMM : 0 ≤ M * M := Rat.mul_nonneg hM0 hM0
-  have r8 := rep_count_8MM 1 e (by decide) he
-  rw [hMdef] at r8
+  have r8 := hcls.rep 1 (by decide)
   have r8' : Rep (8 * M * M) := by
     have : ((1 : Nat) : Rat) * (8 * M * M) = 8 * M * M := by
       have : ((1 : Nat) : Rat) = 1 := rfl
@@ -278,8 +316,8 @@ theorem varAcc_step (keep : Bool) (e : Nat) (he : e ≤ 480) (sf : NumF) (sq : N
   -- the sum
   have hvlo := h.vlo
   have hvhi := h.vhi
-  have rK := rep_count_8MM (sf.samples + 1) e hn he
-  rw [hMdef, hKc] at rK
+  have rK := hcls.rep (sf.samples + 1) hn
+  rw [hKc] at rK
   have hvv := add_finite h.varF pb.1
   have vb := round_between_rep (sf.variance.sign && p.sign) (rep_neg rK) rK
     (q := sf.variance.toRat + p.toRat) (by grind) (by grind)
@@ -309,11 +347,11 @@ theorem varAcc_step (keep : Bool) (e : Nat) (he : e ≤ 480) (sf : NumF) (sq : N
   · rw [hsK]; grind
   · rw [hsK]; grind
 
-theorem varAcc_fold (keep : Bool) (e : Nat) (he : e ≤ 480) (l : List F64) :
+theorem varAcc_fold (keep : Bool) (M : Rat) (hcls : MagClass M) (l : List F64) :
     ∀ (sf : NumF) (sq : Numerical Rat), 1 ≤ sf.samples → sf.samples + l.length ≤ P53 →
-      VarAcc ((2 ^ e : Nat) : Rat) sf sq →
-      (∀ x ∈ l, x.isFinite = true ∧ -((2 ^ e : Nat) : Rat) ≤ x.toRat ∧ x.toRat ≤ ((2 ^ e : Nat) : Rat)) →
-      VarAcc ((2 ^ e : Nat) : Rat) (l.foldl (NumF.samplef keep) sf)
+      VarAcc M sf sq →
+      (∀ x ∈ l, x.isFinite = true ∧ -M ≤ x.toRat ∧ x.toRat ≤ M) →
+      VarAcc M (l.foldl (NumF.samplef keep) sf)
         ((l.map F64.toRat).foldl (Numerical.samplef ratOps false) sq) := by
   induction l with
   | nil => intro sf sq _ _ h _; exact h
@@ -323,7 +361,7 @@ theorem varAcc_fold (keep : Bool) (e : Nat) (he : e ≤ 480) (l : List F64) :
     simp only [List.length_cons] at hn
     rw [List.foldl_cons, List.map_cons, List.foldl_cons]
     exact ih _ _ (by rw [samplef_samples]; omega) (by rw [samplef_samples]; omega)
-      (varAcc_step keep e he sf sq x hk (by omega) h xf xa xb) (fun y hy => hl y (by simp [hy]))
+      (varAcc_step keep M hcls sf sq x hk (by omega) h xf xa xb) (fun y hy => hl y (by simp [hy]))
 
 /-- The state after the first sample. -/
 theorem varAcc_first (keep : Bool) (M : Rat) (x : F64) (xf : x.isFinite = true) (xa : -M ≤ x.toRat) (xb : x.toRat ≤ M) :
@@ -355,23 +393,20 @@ theorem varAcc_first (keep : Bool) (M : Rat) (x : F64) (xf : x.isFinite = true) 
   · rw [s1, s5, hqv, one]; grind
   · rw [s1, s5, hqv, one]; grind
 
-/-- **Accumulated error of `M2`.**  For a non-empty list of at most `2^53` finite samples of magnitude at most
-`M = 2^e` (`e ≤ 480`): the float `M2` is finite, at most `8n·M²` in magnitude, and differs from the exact
-`Σ (x − mean)²` of the sample values by at most `(15n(n+1)/2 + 55n)·u·M² + 2n·η`. -/
-theorem var_acc_error (keep : Bool) (e : Nat) (he : e ≤ 480) (l : List F64) (hne : l ≠ []) (hn : l.length ≤ P53)
-    (hl : ∀ x ∈ l, x.isFinite = true ∧ -((2 ^ e : Nat) : Rat) ≤ x.toRat ∧ x.toRat ≤ ((2 ^ e : Nat) : Rat)) :
+/-- **Accumulated error of `M2`**, for any magnitude class. -/
+theorem var_acc_error_gen (keep : Bool) (M : Rat) (hcls : MagClass M) (l : List F64) (hne : l ≠ []) (hn : l.length ≤ P53)
+    (hl : ∀ x ∈ l, x.isFinite = true ∧ -M ≤ x.toRat ∧ x.toRat ≤ M) :
     let r := runFv keep l
     let n : Rat := (l.length : Rat)
-    let M : Rat := ((2 ^ e : Nat) : Rat)
     let G := (15 * (n * (n + 1)) / 2 + 55 * n) * (M * (M * uF)) + 2 * n * etaF
     r.variance.isFinite = true ∧ -(n * (8 * M * M)) ≤ r.variance.toRat ∧ r.variance.toRat ≤ n * (8 * M * M) ∧
     r.variance.toRat - m2 (l.map F64.toRat) ≤ G ∧ m2 (l.map F64.toRat) - r.variance.toRat ≤ G := by
-  intro r n M G
+  intro r n G
   obtain ⟨x, l', rfl⟩ := List.exists_cons_of_ne_nil hne
   obtain ⟨xf, xa, xb⟩ := hl x (by simp)
   obtain ⟨s1, _⟩ := first_step keep x xf
   simp only [List.length_cons] at hn
-  have hf := varAcc_fold keep e he l' _ _ (by rw [s1]; omega) (by rw [s1]; omega)
+  have hf := varAcc_fold keep M hcls l' _ _ (by rw [s1]; omega) (by rw [s1]; omega)
     (varAcc_first keep _ x xf xa xb) (fun y hy => hl y (by simp [hy]))
   have hr : r = l'.foldl (NumF.samplef keep) (NumF.samplef keep NumF.new x) := by
     show runFv keep (x :: l') = _
@@ -390,6 +425,19 @@ theorem var_acc_error (keep : Bool) (e : Nat) (he : e ≤ 480) (l : List F64) (h
   rw [welford_m2, hsn] at up dn
   rw [hsn] at vlo vhi
   exact ⟨hf.varF, vlo, vhi, up, dn⟩
+
+/-- **Accumulated error of `M2`.**  For a non-empty list of at most `2^53` finite samples of magnitude at most
+`M = 2^e` (`e ≤ 480`): the float `M2` is finite, at most `8n·M²` in magnitude, and differs from the exact
+`Σ (x − mean)²` of the sample values by at most `(15n(n+1)/2 + 55n)·u·M² + 2n·η`. -/
+theorem var_acc_error (keep : Bool) (e : Nat) (he : e ≤ 480) (l : List F64) (hne : l ≠ []) (hn : l.length ≤ P53)
+    (hl : ∀ x ∈ l, x.isFinite = true ∧ -((2 ^ e : Nat) : Rat) ≤ x.toRat ∧ x.toRat ≤ ((2 ^ e : Nat) : Rat)) :
+    let r := runFv keep l
+    let n : Rat := (l.length : Rat)
+    let M : Rat := ((2 ^ e : Nat) : Rat)
+    let G := (15 * (n * (n + 1)) / 2 + 55 * n) * (M * (M * uF)) + 2 * n * etaF
+    r.variance.isFinite = true ∧ -(n * (8 * M * M)) ≤ r.variance.toRat ∧ r.variance.toRat ≤ n * (8 * M * M) ∧
+    r.variance.toRat - m2 (l.map F64.toRat) ≤ G ∧ m2 (l.map F64.toRat) - r.variance.toRat ≤ G :=
+  var_acc_error_gen keep _ (magClass_pow2 e he) l hne hn hl
 
 /-- The arithmetic of `Variance() = fl(M2 / (n−1))` (`N = n − 1`). -/
 theorem variance_div_arith {N V W t w g G vf M u η : Rat} (hN : 1 ≤ N) (ht : N * t = V) (hw : N * w = W)
@@ -419,18 +467,17 @@ theorem variance_div_arith {N V W t w g G vf M u η : Rat} (hN : 1 ≤ N) (ht : 
 /-- **Accumulated error of `Variance()`.**  Under the hypotheses of `var_acc_error` and with at least two samples:
 `Variance()` is finite and differs from the exact sample variance of the sample values by at most
 `G/(n−1) + 16·u·M² + η` (`G` the bound of `var_acc_error`). -/
-theorem variance_acc_error (keep : Bool) (e : Nat) (he : e ≤ 480) (l : List F64) (h2 : 2 ≤ l.length) (hn : l.length ≤ P53)
-    (hl : ∀ x ∈ l, x.isFinite = true ∧ -((2 ^ e : Nat) : Rat) ≤ x.toRat ∧ x.toRat ≤ ((2 ^ e : Nat) : Rat)) :
+theorem variance_acc_error_gen (keep : Bool) (M : Rat) (hcls : MagClass M) (l : List F64) (h2 : 2 ≤ l.length) (hn : l.length ≤ P53)
+    (hl : ∀ x ∈ l, x.isFinite = true ∧ -M ≤ x.toRat ∧ x.toRat ≤ M) :
     let r := runFv keep l
     let n : Rat := (l.length : Rat)
-    let M : Rat := ((2 ^ e : Nat) : Rat)
     let G := (15 * (n * (n + 1)) / 2 + 55 * n) * (M * (M * uF)) + 2 * n * etaF
     let T := G / (n - 1) + 16 * (M * M * uF) + etaF
     r.varianceF.isFinite = true ∧
     r.varianceF.toRat - sampleVariance (l.map F64.toRat) ≤ T ∧ sampleVariance (l.map F64.toRat) - r.varianceF.toRat ≤ T := by
-  intro r n M G T
+  intro r n G T
   have hne : l ≠ [] := by intro h; rw [h] at h2; simp at h2
-  obtain ⟨vf, vlo, vhi, up, dn⟩ := var_acc_error keep e he l hne hn hl
+  obtain ⟨vf, vlo, vhi, up, dn⟩ := var_acc_error_gen keep M hcls l hne hn hl
   have hv : r.varianceF = F64.div r.variance (F64.ofInt ((l.length - 1 : Nat) : Int)) := by
     show Numerical.varianceOf f64Ops r = _
     unfold Numerical.varianceOf
@@ -457,7 +504,7 @@ theorem variance_acc_error (keep : Bool) (e : Nat) (he : e ≤ 480) (l : List F6
     unfold sampleVariance
     rw [List.length_map, if_pos (by omega)]
   have mulinv : (n - 1) * (n - 1)⁻¹ = 1 := Rat.mul_inv_cancel _ hN0
-  have hM0 : (0 : Rat) ≤ M := Rat.natCast_nonneg
+  have hM0 : (0 : Rat) ≤ M := hcls.nonneg
   have res := variance_div_arith (N := n - 1) (V := r.variance.toRat) (W := m2 (l.map F64.toRat))
     (t := r.variance.toRat / (n - 1)) (w := m2 (l.map F64.toRat) / (n - 1)) (g := G / (n - 1)) (G := G)
     (vf := (F64.div r.variance (F64.ofInt ((l.length - 1 : Nat) : Int))).toRat) (M := M) (u := uF) (η := etaF)
@@ -469,5 +516,17 @@ theorem variance_acc_error (keep : Bool) (e : Nat) (he : e ≤ 480) (l : List F6
         rw [this]; exact vhi⟩ ⟨up, dn⟩ E
   rw [hv, hsv]
   exact ⟨hfin, res.1, res.2⟩
+
+
+theorem variance_acc_error (keep : Bool) (e : Nat) (he : e ≤ 480) (l : List F64) (h2 : 2 ≤ l.length) (hn : l.length ≤ P53)
+    (hl : ∀ x ∈ l, x.isFinite = true ∧ -((2 ^ e : Nat) : Rat) ≤ x.toRat ∧ x.toRat ≤ ((2 ^ e : Nat) : Rat)) :
+    let r := runFv keep l
+    let n : Rat := (l.length : Rat)
+    let M : Rat := ((2 ^ e : Nat) : Rat)
+    let G := (15 * (n * (n + 1)) / 2 + 55 * n) * (M * (M * uF)) + 2 * n * etaF
+    let T := G / (n - 1) + 16 * (M * M * uF) + etaF
+    r.varianceF.isFinite = true ∧
+    r.varianceF.toRat - sampleVariance (l.map F64.toRat) ≤ T ∧ sampleVariance (l.map F64.toRat) - r.varianceF.toRat ≤ T :=
+  variance_acc_error_gen keep _ (magClass_pow2 e he) l h2 hn hl
 
 end Rare.C07
